@@ -518,7 +518,7 @@ c06_char_big! {c06_rsplit_terminator_char_big, Which::RSplitTerminator}
 macro_rules! c06_spec_char {
     ($name:ident, $refseq:ident, $stdfn:ident, $term:expr, $o_piece:literal, $o_count:literal) => {
         harness! {
-            /// kind=bounded tier=thorough bound="spec adequacy: the reference sequence vs the real std iterator of the same name with a char delimiter (any char), string<=4 bytes"
+            /// kind=bounded tier=thorough bound="spec adequacy: the reference sequence vs the real std iterator of the same name with a closure pattern matching exactly one char (any char), string<=4 bytes"
             #[kani::unwind(8)]
             fn $name(s) {
                 let hs = BStr::<4>::any(s);
@@ -530,7 +530,11 @@ macro_rules! c06_spec_char {
                 let occ = occurrences::<4, 4>(hb, db);
                 let q = $refseq::<4>(hb, db.len(), &occ);
                 let n = if $term { term_count(&q) } else { q.n };
-                let mut it = h.$stdfn(c);
+                // a closure pattern that matches exactly `c`: same documented result as the `char`
+                // pattern, but std then walks `char_indices` instead of the word-at-a-time memchr,
+                // which CBMC cannot afford six times in a row (the direct `char` pattern is
+                // tied in c06_spec_direct_char on shorter strings)
+                let mut it = h.$stdfn(|x: char| x == c);
                 let mut k = 0;
                 let mut live = true;
                 while k < 6 {
@@ -558,6 +562,36 @@ macro_rules! c06_spec_char {
 c06_spec_char! {c06_spec_split_char, ref_split_seq, split, false, "SPEC.ref_split_seq.piece_eq_std_split_char", "SPEC.ref_split_seq.count_eq_std_split_char"}
 c06_spec_char! {c06_spec_rsplit_char, ref_rsplit_seq, rsplit, false, "SPEC.ref_rsplit_seq.piece_eq_std_rsplit_char", "SPEC.ref_rsplit_seq.count_eq_std_rsplit_char"}
 c06_spec_char! {c06_spec_split_terminator_char, ref_split_seq, split_terminator, true, "SPEC.term_count.piece_eq_std_split_terminator_char", "SPEC.term_count.count_eq_std_split_terminator_char"}
+
+harness! {
+    /// kind=bounded tier=thorough bound="spec adequacy: ref_split_seq/ref_rsplit_seq vs str::split(char)/rsplit(char) with the char pattern itself, string<=2 bytes (<=3 pieces)"
+    #[kani::unwind(12)]
+    fn c06_spec_direct_char(s) {
+        let hs = BStr::<2>::any(s);
+        let c = s.char();
+        let h = hs.as_str();
+        let hb = h.as_bytes();
+        let mut tmp = [0u8; 4];
+        let db = c.encode_utf8(&mut tmp).as_bytes();
+        let occ = occurrences::<2, 4>(hb, db);
+        let q = ref_split_seq::<2>(hb, db.len(), &occ);
+        let r = ref_rsplit_seq::<2>(hb, db.len(), &occ);
+        let mut it = h.split(c);
+        let mut rit = h.rsplit(c);
+        let mut k = 0;
+        while k < 4 {
+            let e = if k < q.n { Some((q.a[k], q.b[k])) } else { None };
+            chk!(s, match (it.next(), e) { (Some(p), Some((a, b))) => is_subslice_at(hb, p.as_bytes(), a, b), (None, None) => true, _ => false },
+                 "SPEC.ref_split_seq.eq_std_split_char_direct");
+            let e = if k < r.n { Some((r.a[k], r.b[k])) } else { None };
+            chk!(s, match (rit.next(), e) { (Some(p), Some((a, b))) => is_subslice_at(hb, p.as_bytes(), a, b), (None, None) => true, _ => false },
+                 "SPEC.ref_rsplit_seq.eq_std_rsplit_char_direct");
+            k += 1;
+        }
+        cov!(s, q.n == 3, "SPEC.cover.direct_three_pieces");
+        cov!(s, q.n == 2 && db.len() == 2, "SPEC.cover.direct_char2");
+    }
+}
 
 macro_rules! c06_spec_empty {
     ($name:ident, $refseq:ident, $stdfn:ident, $term:expr, $o_piece:literal, $o_count:literal) => {
